@@ -1,4 +1,5 @@
 import PytezosModel.Proofs.AddrForge
+import PytezosModel.Crypto.RealHash
 /-! C10 — addresses, keys, key hashes, signatures and chain ids survive the optimized binary form.
 
 `Impl.AddrForge.*` mirror `forge_address / unforge_address / forge_contract / unforge_contract /
@@ -7,7 +8,8 @@ forge_public_key / unforge_public_key / unforge_chain_id / unforge_signature / f
 chains, dict literals) and the shapes of `unforge_address`, `forge_contract`, `unforge_signature` are
 regenerated from the source.  Values are the Base58 strings the functions exchange; a value of kind `p`
 with payload `h` is *the* string `base58_encode(h, p)` (`base58Encode cks h p = .ok s`).  `cks` is the
-checksum function, only assumed to return four bytes.  All theorems quantify over every entry of the
+checksum function, only assumed to return four bytes (the last section instantiates it with the executable
+double SHA-256 the driver runs).  All theorems quantify over every entry of the
 regenerated tables, every payload and every entrypoint name; the finite evaluations are closed facts about
 the tables (that the prefix ↔ tag maps are mutually inverse is part of `entryOk` / `keyOk` / `readTablesOk`). -/
 namespace C10
@@ -223,5 +225,73 @@ example : ((base58Encode exCks (List.replicate 20 9) [75, 84, 49]).toOption.bind
 -- a 96-byte signature reads as BLsig
 example : ((unforgeSignature exCks (List.replicate 96 1)).toOption.map (·.take 5)) =
     some [66, 76, 115, 105, 103] := by decide +kernel
+
+/-! ### the real checksum (executable double SHA-256, what the driver runs)
+
+`C09.sha256d4_ok`-style instance: the round trips hold for the very strings pytezos exchanges.  The known-answer
+examples are the address / bytes pairs of tests/unit_tests/test_michelson/test_micheline.py (`test_get_key_hash`,
+`test_regr_local_remote_diff`), evaluated by the kernel with the Lean SHA-256. -/
+
+theorem sha256d4_ok : CksOk RealHash.cks := ⟨RealHash.cks_length, RealHash.cks_bytes⟩
+
+/-- with the real checksum: every address kind and every 20-byte hash round-trips through the 22-byte form -/
+theorem address_roundtrip_sha256 (e : Entry) (he : e ∈ Generated.C10.forgeAddressChain) (h : List Nat)
+    (hl : h.length = 20) (hb : IsBytes h) :
+    ∃ s, base58Encode RealHash.cks h e.1 = .ok s ∧
+      forgeAddress RealHash.cks s false = .ok (e.2.1 ++ h ++ e.2.2) ∧
+      unforgeAddress RealHash.cks (e.2.1 ++ h ++ e.2.2) = .ok s :=
+  address_roundtrip RealHash.cks sha256d4_ok e he h hl hb
+
+/-- with the real checksum: the 21-byte key-hash form round-trips for all digests -/
+theorem keyhash_roundtrip_sha256 (e : Entry) (he : e ∈ Generated.C10.forgeAddressChain) (h2 : e.2.1.length = 2)
+    (h : List Nat) (hl : h.length = 20) (hb : IsBytes h) :
+    ∃ s, base58Encode RealHash.cks h e.1 = .ok s ∧
+      forgeAddress RealHash.cks s true = .ok ((e.2.1 ++ h ++ e.2.2).drop 1) ∧
+      unforgeAddress RealHash.cks ((e.2.1 ++ h ++ e.2.2).drop 1) = .ok s ∧
+      ((e.2.1 ++ h ++ e.2.2).drop 1).length = 21 :=
+  keyhash_roundtrip RealHash.cks sha256d4_ok e he h2 h hl hb
+
+/-- with the real checksum: whatever `unforge_address` accepts forges back to the same bytes -/
+theorem unforge_then_forge_sha256 (data s : List Nat) (hb : IsBytes data) (h : unforgeAddress RealHash.cks data = .ok s) :
+    forgeAddress RealHash.cks s false = .ok data ∨ forgeAddress RealHash.cks s true = .ok data :=
+  unforge_then_forge RealHash.cks sha256d4_ok data s hb h
+
+/-- with the real checksum: public keys of every kind round-trip -/
+theorem public_key_roundtrip_sha256 (e : List Nat × Nat) (he : e ∈ Generated.C10.keyTagOfPrefix) (r : Row)
+    (hr : r ∈ table) (hh : r.human = e.1) (k : List Nat) (hl : k.length = r.dataLen) (hk : IsBytes k) :
+    ∃ s, base58Encode RealHash.cks k e.1 = .ok s ∧ forgePublicKey RealHash.cks s = .ok (e.2 :: k) ∧
+      unforgePublicKey RealHash.cks (e.2 :: k) = .ok s :=
+  public_key_roundtrip RealHash.cks sha256d4_ok e he r hr hh k hl hk
+
+/-- with the real checksum: chain ids and signatures, bytes → text → bytes -/
+theorem chain_id_roundtrip_sha256 (d : List Nat) (hd : IsBytes d) (hl : d.length = 4) :
+    ∃ s, unforgeChainId RealHash.cks d = .ok s ∧ forgeBase58 RealHash.cks s = .ok d :=
+  chain_id_roundtrip RealHash.cks sha256d4_ok d hd hl
+
+theorem signature_roundtrip_sha256 (d : List Nat) (hd : IsBytes d) (hl : d.length = 64 ∨ d.length = 96) :
+    ∃ s, unforgeSignature RealHash.cks d = .ok s ∧ forgeBase58 RealHash.cks s = .ok d :=
+  signature_roundtrip RealHash.cks sha256d4_ok d hd hl
+
+-- `tz1MsmYzmqxHs9trE1qQugZxxcLPqAXdQaX9` ↔ 0000 18896fcfc6690baefa9aedc6d759f9bf05727e8c (test_get_key_hash)
+example : (forgeAddress RealHash.cks [116, 122, 49, 77, 115, 109, 89, 122, 109, 113, 120, 72, 115, 57, 116, 114, 69, 49, 113, 81, 117, 103, 90, 120, 120, 99, 76,
+    80, 113, 65, 88, 100, 81, 97, 88, 57] false).toOption =
+    some [0, 0, 24, 137, 111, 207, 198, 105, 11, 174, 250, 154, 237, 198, 215, 89, 249, 191, 5, 114, 126, 140] := by decide +kernel
+example : (unforgeAddress RealHash.cks [0, 0, 24, 137, 111, 207, 198, 105, 11, 174, 250, 154, 237, 198, 215, 89, 249, 191, 5, 114, 126, 140]).toOption =
+    some [116, 122, 49, 77, 115, 109, 89, 122, 109, 113, 120, 72, 115, 57, 116, 114, 69, 49, 113, 81, 117, 103, 90, 120, 120, 99, 76,
+    80, 113, 65, 88, 100, 81, 97, 88, 57] := by decide +kernel
+-- … and its 21-byte key-hash form (digest starting with 0x18)
+example : (unforgeAddress RealHash.cks [0, 24, 137, 111, 207, 198, 105, 11, 174, 250, 154, 237, 198, 215, 89, 249, 191, 5, 114, 126, 140]).toOption =
+    some [116, 122, 49, 77, 115, 109, 89, 122, 109, 113, 120, 72, 115, 57, 116, 114, 69, 49, 113, 81, 117, 103, 90, 120, 120, 99, 76,
+    80, 113, 65, 88, 100, 81, 97, 88, 57] := by decide +kernel
+-- destination and source of the operation in `test_regr_local_remote_diff`, as they appear in the forged bytes
+example : (forgeAddress RealHash.cks [75, 84, 49, 86, 89, 85, 120, 104, 76, 111, 83, 118, 111, 117, 111, 122, 67, 97, 68, 71, 76, 49, 88, 99, 115, 119, 110, 97,
+    103, 78, 102, 119, 114, 51, 121, 105] false).toOption =
+    some [1, 229, 235, 242, 220, 199, 220, 201, 209, 60, 44, 69, 205, 118, 130, 61, 214, 4, 116, 12, 127, 0] := by decide +kernel
+example : (forgeAddress RealHash.cks [116, 122, 49, 103, 114, 83, 81, 68, 66, 121, 82, 112, 110, 86, 115, 55, 115, 80, 116, 97, 112, 114, 78, 90, 82, 112, 53,
+    51, 49, 90, 75, 122, 54, 74, 109, 109] true).toOption =
+    some [0, 232, 179, 108, 128, 239, 181, 30, 200, 90, 20, 86, 36, 38, 4, 154, 161, 130, 163, 206, 56] := by decide +kernel
+-- the mainnet chain id: 7a06a770 reads as `NetXdQprcVkpaWU`
+example : (unforgeChainId RealHash.cks [0x7a, 0x06, 0xa7, 0x70]).toOption =
+    some [78, 101, 116, 88, 100, 81, 112, 114, 99, 86, 107, 112, 97, 87, 85] := by decide +kernel
 
 end C10
